@@ -10,6 +10,7 @@ import (
 	"pgregory.net/rapid"
 
 	"github.com/foxboron/go-uefi/efi/signature"
+	"github.com/foxboron/go-uefi/efi/util"
 
 	"verifharness/adapt"
 	"verifharness/gen"
@@ -140,6 +141,23 @@ func checkStream(stream []byte) (signature.SignatureDatabase, []esl.List, error)
 	}
 	if !bytes.Equal(db2.Bytes(), stream) {
 		return nil, nil, fmt.Errorf("Unmarshal+Bytes does not reproduce the input once the source buffer has been reused (the decoded database shares memory with its input)")
+	}
+	// Unmarshal defines the receiver: what a database value held before (the same stream, or another database)
+	// is not part of what the stream decodes to
+	if err := db2.Unmarshal(bytes.NewBuffer(append([]byte{}, stream...))); err != nil {
+		return nil, nil, fmt.Errorf("Unmarshal into a database value that was decoded into before rejects a well-formed stream: %v", err)
+	}
+	if !bytes.Equal(db2.Bytes(), stream) {
+		return nil, nil, fmt.Errorf("Unmarshal into a database value that already held %d lists does not yield the database the stream defines: %d lists, %d bytes re-encoded of %d", len(want), len(db2), len(db2.Bytes()), len(stream))
+	}
+	db3 := signature.SignatureDatabase{}
+	if err := db3.Append(signature.CERT_SHA256_GUID, util.EFIGUID{Data1: 7}, make([]byte, 32)); err == nil {
+		if err := db3.Unmarshal(bytes.NewBuffer(append([]byte{}, stream...))); err != nil {
+			return nil, nil, fmt.Errorf("Unmarshal into a database value that was built before rejects a well-formed stream: %v", err)
+		}
+		if !bytes.Equal(db3.Bytes(), stream) {
+			return nil, nil, fmt.Errorf("Unmarshal into a database value that already held a list does not yield the database the stream defines: %d lists, %d bytes re-encoded of %d", len(db3), len(db3.Bytes()), len(stream))
+		}
 	}
 	return db, want, nil
 }
